@@ -37,7 +37,11 @@ def run():
              f"4 containers of length L-1..L+2 side by side in a list / dict around the threshold; all values of a "
              f"tiny scope (pool of 10 scalars, lists <= 2, dicts <= 2 keys, one more level); {rnd} of depth <= 4 "
              f"(flat containers tuned to 140..215 columns, tricky strings, non-ASCII, boundary floats/ints, int and "
-             f"mixed keys in python mode). non-trivial = the output has more than one line",
+             f"mixed keys in python mode). Every value is printed under each way of consuming the result: whole "
+             f"text (plain_text / str), lines converted as they are yielded, list(result) of a fresh result with "
+             f"the kept lines converted (plain_text and str) only after the iteration finished, and two iterators "
+             f"of one result advanced alternately with their lines converted at the end. "
+             f"non-trivial = the output has more than one line",
         exhaustive=False,
         extra={'clauses': ['C11.json_roundtrip', 'C11.python_roundtrip', 'C11.sorted_keys',
                            'C11.elements_preserved', 'C11.lines_equal_whole'],
